@@ -133,6 +133,8 @@ class UpdateVcsgLocationAnswer(UpdateVcsgLocation):
         self.header.is_proxyable = True
 
         setattr(self, "load", [])
+        setattr(self, "supported_features", [])
+        setattr(self, "vplmn_csg_subscription_data", [])
         setattr(self, "reset_id", [])
         setattr(self, "failed_avp", [])
         setattr(self, "proxy_info", [])
